@@ -32,7 +32,7 @@ SCALAR_PATHS = [
 STR_PATHS = ["s", "t", "u", "o.b"]  # always strings
 KEY_PATHS = ["n", "m", "s", "t", "u", "o.a", "o.b", "b", "nn", "zz", "fl"]  # always hashable
 LIST_PATHS = ["l", "ls", "ll", "o.c", "e"]
-DICT_PATHS = ["d", "dx", "o.d", "ed", "dv"]  # pairwise disjoint key sets; only dv has ':' in keys: LEADING-colon keys
+DICT_PATHS = ["d", "dx", "o.d", "ed", "dv", "dm"]  # pairwise disjoint key sets; only dv has ':' in keys: LEADING-colon keys
 # (`:href`, `:xlink:href`, Vue/Alpine bindings), which the library states it never splits into aggregates
 INNER_DICT_PATHS = DICT_PATHS + ["dc"]  # dc has ':' keys; only spread inside dict literals
 OTHER_PATHS = ["o", "o.o", "ll.0"]
@@ -43,6 +43,7 @@ DX_KEYS = ["a-b", "@c", "x y", "1", "#h.i"]
 OD_KEYS = ["p", "q"]
 DC_KEYS = ["x:y", "attrs:z", ":w"]
 DV_KEYS = [":href", ":xlink:href", ":a:b:c"]
+DM_KEYS = ["ma", "mb"]  # dm is a Mapping that is NOT a dict (mappingproxy / ChainMap / UserDict): `...dm` still gives keyword arguments
 
 PLAIN_KEYS = ["k", "k2", "key", "data", "class", "title", "a_b", "_x", "K9", "context"]
 # keyword name that is a parameter of every tag's own render(self, context, ...): for a COMPONENT it is an ordinary keyword input
@@ -118,6 +119,13 @@ def build_value(j):
             return Obj(**{k: build_value(v) for k, v in j["$obj"].items()})
         if "$call" in j and len(j) == 1:
             return Call(build_value(j["$call"]))
+        if "$map" in j and len(j) == 1:
+            import collections
+            import types
+
+            kind, items = j["$map"]
+            d = {k: build_value(v) for k, v in items.items()}
+            return (types.MappingProxyType(d), collections.ChainMap(d), collections.UserDict(d))[kind % 3]
         return {k: build_value(v) for k, v in j.items()}
     if isinstance(j, list):
         return [build_value(v) for v in j]
@@ -132,6 +140,9 @@ def build_context(ctx_json):
 
 # ---------------------------------------------------------------------------
 # canonical form for deep, type-strict comparison
+
+
+from collections.abc import Mapping as _Mapping  # noqa: E402
 
 
 def canon(x):
@@ -155,6 +166,8 @@ def canon(x):
         items = [(canon(k), canon(v)) for k, v in x.items()]
         items.sort(key=lambda kv: repr(kv[0]))
         return ("dict", items)
+    if isinstance(x, _Mapping):  # mappingproxy / ChainMap / UserDict passed on as a value
+        return ("mapping", type(x).__name__, canon(dict(x)))
     if isinstance(x, Obj):
         return ("obj", canon(x.__dict__))
     if isinstance(x, Call):
@@ -815,6 +828,7 @@ def context_strategy():
             "dx": subset_dict(DX_KEYS, scalar),
             "dc": subset_dict(DC_KEYS, scalar),
             "dv": subset_dict(DV_KEYS, scalar),
+            "dm": st.tuples(st.integers(0, 2), subset_dict(DM_KEYS, scalar)).map(lambda t: {"$map": [t[0], t[1]]}),
             "ed": st.just({}),
             "o": st.fixed_dictionaries(
                 {
